@@ -28,13 +28,13 @@ only for the literal forms):
 * `tables_reference_open_connections`, `never_routes_to_closed_connection`: in every reachable state the routing
   tables reference open connections only (repo commit c3084c3), so no write ever goes to a connection that is gone.
 * `Out.ub` remains in the model where `onSasl2Authenticated()` would read an unset `sasl2AuthRequest`; since repo commit
-  b1ba6cb no explored script reaches it (not proved unreachable).
+  e17a168 no explored script reaches it (not proved unreachable).
 * Out of scope: server-to-server (`QXmppIncomingServer`/`QXmppOutgoingServer`, dialback) — the modelled server has no
   S2S listener, stanzas for other domains are not routed; server extensions; TLS; stringprep / case folding of JIDs.
 
 History: seven findings were fixed in the repo — 73b9a89 (pre-authentication stanza / bind / session), e590a14 (checker
 reply applied to a later SASL exchange), f6325af (user names with '/' or '@'), c3084c3 (routing entries outliving their
-connection: crash), b1ba6cb (SASL2 success with an unset request: crash).  Their witnesses are the first scripts of the
+connection: crash), e17a168 (SASL2 success with an unset request: crash).  Their witnesses are the first scripts of the
 harness corpus, the two crashes are also re-run in a child process.
 -/
 namespace Qx.C16
